@@ -46,6 +46,8 @@ impl Prop for C04 {
             rebuild: 0,
             extra: 0,
             pressure: 0,
+            mass_delete: 0,
+            big: 3,
         };
         (history(w, EvCfg::default(), tier.pick(40, 150)), prop_oneof![3 => Just(0u8), 1 => 2u8..5], 8u8..40)
             .prop_map(|(ops, stress_threads, per_thread)| Case { ops, stress_threads, per_thread })
@@ -53,6 +55,9 @@ impl Prop for C04 {
     }
     fn label_floors(&self) -> Vec<(&'static str, f64)> {
         vec![("grew", 0.3), ("reopened", 0.2)]
+    }
+    fn release_fraction(&self, tier: Tier) -> f64 {
+        tier.pick(0.3, 0.5)
     }
     fn max_shrink_iters(&self) -> u32 {
         400
@@ -221,6 +226,7 @@ impl Prop for C04 {
                         tags: vec![vec!["t".to_string(), format!("stress-{t}-{k}")]],
                         content_len: 30 + ((k as u32 * 37 + t as u32 * 11) % 400),
                         idc: IdChoice::Hash,
+                        many: 0,
                     };
                     b.push(w.intern(ge.to_model(), Some(&ge)));
                 }
